@@ -142,7 +142,7 @@ def _einsum_task(eq, preserve):
             u = z3.Const("u!sl", K1.sort())
             return [z3.ForAll([u], sum_step(vis, cur, u))]
 
-        it.loop_specs[("abelian_core.AbelianArray.einsum", 2)] = LoopSpec(carried={"new_blocks": ("dict", K1, BLK)}, invariant=inv, step_lemmas=step_lemmas)
+        it.loop_specs[("abelian_core.AbelianArray.einsum", 2)] = LoopSpec(carried={"new_blocks": ("dict", K1, BLK)}, invariant=inv, step_lemmas=step_lemmas, target=("sector", "array"))
         m, _ = x.cls.lookup("einsum")
         ALL = B0[0]
 
